@@ -247,6 +247,16 @@ Proof.
     + exact (IH st fired st' fired' Hrest H).
 Qed.
 
+(* as the loop calls it: flag down, state unchanged; or flag up, mu lower *)
+Corollary rule_sweep_false line cfg lang vs rules st st' fired' :
+  Forall rule_ok rules ->
+  rule_sweep bexec now_year line cfg lang vs rules st false = Ok (st', fired') ->
+  (fired' = false /\ st' = st) \/ (fired' = true /\ mu (ts_infos st') < mu (ts_infos st)).
+Proof.
+  intros Hok H. destruct (rule_sweep_mu line cfg lang vs rules st false st' fired' Hok H) as [[-> ->]|[-> Hm]];
+    [left|right]; auto.
+Qed.
+
 Theorem rule_loop_terminates line cfg lang vs rules :
   Forall rule_ok rules ->
   forall fuel st, mu (ts_infos st) < fuel ->
@@ -312,6 +322,15 @@ Proof.
     + exact (IH st fired st' fired' Hrest H).
 Qed.
 
+Corollary dyn_sweep_false line vs units st st' fired' :
+  Forall unit_ok units ->
+  dyn_sweep_units line vs units st false = Ok (st', fired') ->
+  (fired' = false /\ st' = st) \/ (fired' = true /\ mu (ts_infos st') < mu (ts_infos st)).
+Proof.
+  intros Hok H. destruct (dyn_sweep_mu line vs units st false st' fired' Hok H) as [[-> ->]|[-> Hm]];
+    [left|right]; auto.
+Qed.
+
 Definition cfg_units_ok (cfg : config F) : Prop := Forall unit_ok (all_units cfg).
 
 Theorem dyn_loop_terminates line cfg vs :
@@ -350,7 +369,7 @@ Proof. induction l as [|t l IH]; cbn [nv length]; [lia|destruct (is_var_info t);
    cf_type_group, none of which lists "VARIABLE" ([default_type_groups_no_variable] below). *)
 Definition tok_no_var (p : token F) : Prop := forall n, token_match (TVariable n) p = false.
 Definition vars_ok (vs : vars F) : Prop :=
-  Forall (fun nv : str * varinfo F => Forall tok_no_var (v_tokens (snd nv))) vs.
+  Forall (fun kv : str * varinfo F => Forall tok_no_var (v_tokens (snd kv))) vs.
 
 (* a syntactic sufficient condition *)
 Definition tok_no_var_b (p : token F) : bool :=
@@ -470,6 +489,29 @@ Proof.
   apply subst_loop_terminates; [exact Hok|]. cbn [ts_infos]. pose proof (nv_le_length (ts_infos st)). lia.
 Qed.
 
+(* the hypothesis is needed: a (hypothetical, unreachable - see [vars_ok]) variable whose name
+   consists of its own Variable token is substituted for ever *)
+Definition self_var : vars F := [(s "a", {| v_tokens := [TVariable (s "a")]; v_data := ANone |})].
+
+Theorem subst_loop_without_vars_ok_refuted line : forall fuel (t : token_info F),
+  ti_ty t = Some (TVariable (s "a")) ->
+  subst_loop fuel line self_var 0 {| ts_infos := [t]; ts_ui := [] |} = Ok None.
+Proof.
+  induction fuel as [|f IH]; intros t Ht; cbn [subst_loop]; [reflexivity|].
+  cbn [ts_infos skipn self_var pick_variable find_location v_tokens find_location_from prefix_match].
+  unfold info_eq_token. rewrite Ht. cbn [token_match]. rewrite str_eqb_refl.
+  cbn [andb bind length Nat.add Nat.pred nth_opt Nat.ltb Nat.leb ts_ui].
+  unfold ui_update. cbn [find_index bind firstn skipn app].
+  apply IH. reflexivity.
+Qed.
+
+Lemma self_var_not_ok : ~ vars_ok self_var.
+Proof.
+  intro H. inversion H as [|? ? Hv _]; subst. cbn [snd v_tokens] in Hv.
+  inversion Hv as [|? ? Hp _]; subst. specialize (Hp (s "a")). cbn [token_match] in Hp.
+  rewrite str_eqb_refl in Hp. discriminate.
+Qed.
+
 (* ---------- a one-token pattern whose rule returns a matching token never terminates ---------- *)
 Definition pat_number_x : token_info F :=
   {| ti_start := 0%N; ti_end := 10%N; ti_ty := Some (TField (FNumber (s "x"))); ti_text := s "{NUMBER:x}"; ti_active := true |}.
@@ -488,12 +530,12 @@ Lemma single_token_sweep line cfg lang vs (l : tis) :
 Proof.
   intros (t & rest & x & nt & -> & Ha & Ht & Hrest).
   eexists. split.
-  - cbn [rule_sweep rule_patterns rule_try_patterns ts_infos]. unfold find_match.
+  - unfold pat_number_x, echo_rule. cbn [rule_sweep rule_patterns rule_try_patterns ts_infos]. unfold find_match.
     cbn [find_match_loop]. rewrite Ha, Ht. cbn [negb nth_opt].
     unfold info_eq. rewrite Ht, Ha. cbn [pat_number_x ti_ty ti_active negb orb token_match token_field_compare length Nat.eqb].
     cbn [bind fm_total fm_rule_idx fm_start fm_target fm_fields length Nat.eqb Nat.pred nth_opt].
     unfold get_field_name. cbn [ti_ty field_name assoc_insert].
-    unfold api_call, field_tok. cbn [echo_rule ar_kind assoc]. rewrite str_eqb_refl, Ht.
+    unfold api_call, field_tok. cbn [ar_kind assoc]. rewrite str_eqb_refl, Ht.
     cbn [api_ui_fields ts_ui]. unfold ui_update. cbn [find_index bind].
     unfold replace_match. cbn [fm_start fm_target Nat.pred nth_opt Nat.eqb mark_removed Nat.leb Nat.ltb andb insert_at bind].
     rewrite (mark_removed_out rest 0 1 1 (le_n _)). reflexivity.
@@ -520,3 +562,332 @@ Proof.
 Qed.
 
 End WithNum.
+
+(* ====================================================================================== *)
+(* The fuel of Api.tokinize: loop_fuel st = 2 * length + 8 > mu; update_token_variables uses
+   S (length) > nv. *)
+Section Fuel.
+Context {F : Type} {NF : Num F}.
+
+Lemma loop_fuel_enough (st : @Rules.tstate F) : mu (ts_infos st) < loop_fuel st.
+Proof. unfold loop_fuel. pose proof (mu_le_length (ts_infos st)). lia. Qed.
+
+(* [unfuel] itself produces the out-of-fuel panic only from [Ok None] *)
+Lemma unfuel_out_of_fuel {A} (x : res (option A)) :
+  unfuel x = Panic SITE_OUT_OF_FUEL -> x = Ok None \/ x = Panic SITE_OUT_OF_FUEL.
+Proof. destruct x as [[a|]|site]; cbn [unfuel]; intro H; [discriminate|left; reflexivity|right; inversion H; reflexivity]. Qed.
+
+(* the three [unfuel] calls of Api.tokinize, for any configuration whose rule and unit patterns
+   all have at least two tokens and any session variables satisfying [vars_ok] *)
+Theorem tokinize_loops_terminate_cfg lx ck (cfg : config F) lang vs line :
+  cfg_rules_ok cfg -> cfg_units_ok cfg -> vars_ok vs ->
+  (forall st3, update_token_variables line vs st3 <> Ok None) /\
+  (forall st4, dyn_loop (loop_fuel st4) line cfg vs st4 <> Ok None) /\
+  (forall st5, rule_tokinizer (basic_execute lx ck) (ck_year ck) (loop_fuel st5) line cfg lang vs st5 <> Ok None).
+Proof.
+  intros Hr Hu Hv. repeat split.
+  - intro st3. apply update_token_variables_terminates. exact Hv.
+  - intro st4. apply dyn_loop_terminates; [exact Hu|apply loop_fuel_enough].
+  - intro st5. apply rule_tokinizer_terminates; [exact Hr|apply loop_fuel_enough].
+Qed.
+
+(* ---------- generic Forall facts used for the tables ---------- *)
+Lemma forallb_Forall {A} (f : A -> bool) (P : A -> Prop) :
+  (forall x, f x = true -> P x) -> forall l, forallb f l = true -> Forall P l.
+Proof.
+  intros HfP l H. apply Forall_forall. intros x Hin. apply HfP.
+  rewrite forallb_forall in H. exact (H x Hin).
+Qed.
+
+Lemma Forall_flat_map_iff {A B} (P : B -> Prop) (f : A -> list B) l :
+  Forall P (flat_map f l) <-> Forall (fun x => Forall P (f x)) l.
+Proof.
+  induction l as [|x l IH]; cbn [flat_map]; [split; constructor|].
+  rewrite Forall_app, IH. split.
+  - intros [H1 H2]. constructor; assumption.
+  - intro H. inversion H; subst. split; assumption.
+Qed.
+
+Lemma Forall_map_iff {A B} (P : B -> Prop) (f : A -> B) l :
+  Forall P (map f l) <-> Forall (fun x => P (f x)) l.
+Proof.
+  induction l as [|x l IH]; cbn [map]; [split; constructor|].
+  split; intro H; inversion H; subst; constructor; try assumption; apply IH; assumption.
+Qed.
+
+Definition types_ok (tys : list (str * list (N * dyntype F))) : Prop :=
+  Forall (fun g : str * list (N * dyntype F) => Forall (fun kd : N * dyntype F => unit_ok (snd kd)) (snd g)) tys.
+
+Lemma cfg_units_ok_iff (cfg : config F) : cfg_units_ok cfg <-> types_ok (cf_types cfg).
+Proof.
+  unfold cfg_units_ok, all_units, types_ok. rewrite Forall_flat_map_iff.
+  split; intro H; eapply Forall_impl; try exact H; intros g Hg; cbv beta in *; apply Forall_map_iff; exact Hg.
+Qed.
+
+Lemma assoc_update_Forall {A} (Q : A -> Prop) k (f : A -> A) l :
+  (forall v, Q v -> Q (f v)) ->
+  Forall (fun kv : str * A => Q (snd kv)) l -> Forall (fun kv : str * A => Q (snd kv)) (assoc_update k f l).
+Proof.
+  intros Hf. induction l as [|[k' v] r IH]; intro H; cbn [assoc_update]; [constructor|].
+  inversion H as [|? ? Hv Hr]; subst. cbn [snd] in Hv.
+  destruct (str_eqb k k'); constructor; cbn [snd]; auto.
+Qed.
+
+Lemma assoc_insert_Forall {A} (Q : A -> Prop) k v (l : list (str * A)) :
+  Q v -> Forall (fun kv : str * A => Q (snd kv)) l -> Forall (fun kv : str * A => Q (snd kv)) (assoc_insert k v l).
+Proof.
+  intros Hv. induction l as [|[k' v'] r IH]; intro H; cbn [assoc_insert].
+  - constructor; [exact Hv|constructor].
+  - inversion H as [|? ? Hv' Hr]; subst.
+    destruct (str_eqb k k'); [constructor; [exact Hv|exact Hr]|].
+    destruct (str_ltb k k'); [constructor; [exact Hv|exact H]|].
+    constructor; [exact Hv'|exact (IH Hr)].
+Qed.
+
+Lemma ninsert_Forall {A} (Q : A -> Prop) k v (l : list (N * A)) :
+  Q v -> Forall (fun kv : N * A => Q (snd kv)) l -> Forall (fun kv : N * A => Q (snd kv)) (ninsert k v l).
+Proof.
+  intros Hv. induction l as [|[k' v'] r IH]; intro H; cbn [ninsert].
+  - constructor; [exact Hv|constructor].
+  - inversion H as [|? ? Hv' Hr]; subst.
+    destruct (N.eqb k k'); [constructor; [exact Hv|exact Hr]|].
+    destruct (N.ltb k k'); [constructor; [exact Hv|exact H]|].
+    constructor; [exact Hv'|exact (IH Hr)].
+Qed.
+
+Lemma remove_at_Forall {A} (Q : A -> Prop) (l : list A) : forall i, Forall Q l -> Forall Q (remove_at i l).
+Proof.
+  induction l as [|x l IH]; intros i H; destruct i; cbn [remove_at]; try constructor;
+    inversion H; subst; auto.
+Qed.
+
+End Fuel.
+
+(* ====================================================================================== *)
+(* The regenerated configuration (F = float): finite-table side conditions, recomputed from
+   /repo/src/json/config.json on every run. *)
+Definition pat_ok_b (p : list (token_info float)) : bool := Nat.leb 2 (length p).
+
+Lemma pat_ok_b_ok p : pat_ok_b p = true -> pat_ok p.
+Proof. unfold pat_ok_b, pat_ok. intro H. apply Nat.leb_le. exact H. Qed.
+
+(* every pattern of every built-in rule of every language has at least two tokens *)
+Lemma default_rules_ok_b :
+  forallb (fun lr : str * list (rule float) => forallb (fun r => forallb pat_ok_b (rule_patterns r)) (snd lr))
+          (cf_rules default_config) = true.
+Proof. vm_compute. reflexivity. Qed.
+
+Theorem default_rules_ok : cfg_rules_ok default_config.
+Proof.
+  unfold cfg_rules_ok. refine (forallb_Forall _ _ _ _ default_rules_ok_b). intros lr H.
+  refine (forallb_Forall _ _ _ _ H). intros r Hr. unfold rule_ok.
+  refine (forallb_Forall _ _ pat_ok_b_ok _ Hr).
+Qed.
+
+(* every parse pattern of every built-in unit has at least two tokens *)
+Lemma default_units_ok_b :
+  forallb (fun d : dyntype float => forallb pat_ok_b (dt_parse d)) (all_units default_config) = true.
+Proof. vm_compute. reflexivity. Qed.
+
+Theorem default_units_ok : cfg_units_ok default_config.
+Proof.
+  unfold cfg_units_ok. refine (forallb_Forall _ _ _ _ default_units_ok_b). intros d H. unfold unit_ok.
+  refine (forallb_Forall _ _ pat_ok_b_ok _ H).
+Qed.
+
+(* the tables are not empty (non-vacuity of the two side conditions) *)
+Example default_tables_nonempty :
+  map (fun lr : str * list (rule float) => length (snd lr)) (cf_rules default_config) = [20; 13] /\
+  length (all_units default_config) = 33.
+Proof. vm_compute. split; reflexivity. Qed.
+
+(* no type group lists "VARIABLE": a TypeGroup field typed into a line never matches a Variable token *)
+Lemma default_type_groups_no_variable :
+  forallb (fun g : str * list str => negb (mem_str (s "VARIABLE") (snd g))) (cf_type_group default_config) = true.
+Proof. vm_compute. reflexivity. Qed.
+
+(* ---------- the side conditions are invariants of the public setters ---------- *)
+(* an operation registers no ONE-token pattern (empty ones are dropped by the registration) *)
+Definition no_single (ps0 : list (list (token_info float))) : Prop :=
+  Forall (fun p : list (token_info float) => length p <> 1) ps0.
+
+Definition op_pats_ok (ck : clock) (m : mstate) (o : op) : Prop :=
+  match o with
+  | OAddRule lang patterns _ _ _ _ =>
+    forall ps0, tokenise_patterns LX ck (m_cfg m) lang patterns = Ok ps0 -> no_single ps0
+  | OAddTypeItem _ _ _ parse _ _ _ _ _ _ =>
+    forall ps0, tokenise_patterns LX ck (m_cfg m) (s "en") parse = Ok ps0 -> no_single ps0
+  | _ => True
+  end.
+
+Lemma stored_pats_ok ps0 : no_single ps0 ->
+  Forall pat_ok (filter (fun p : list (token_info float) => match p with [] => false | _ => true end) ps0).
+Proof.
+  intro H. apply Forall_forall. intros p Hin. apply filter_In in Hin as [Hin Hne].
+  unfold no_single in H. rewrite Forall_forall in H. specialize (H p Hin). unfold pat_ok.
+  destruct p as [|a [|b r]]; cbn [length] in *; [discriminate|lia|lia].
+Qed.
+
+Theorem step_preserves_ok ck m o :
+  op_pats_ok ck m o ->
+  cfg_rules_ok (m_cfg m) /\ cfg_units_ok (m_cfg m) ->
+  cfg_rules_ok (m_cfg (fst (step ck m o))) /\ cfg_units_ok (m_cfg (fst (step ck m o))).
+Proof.
+  intros Hop [Hr Hu].
+  assert (Hsame : cfg_rules_ok (m_cfg m) /\ cfg_units_ok (m_cfg m)) by (split; assumption).
+  destruct o as [lang text|lang text|sid|sid text|sid lang|sid|v|v|v| |d rm rnd|d rm rnd|rm rnd|cur rate
+                 |lang patterns name kind k cur|lang name|name|name index format parse up down names digits rnd rm];
+    cbn [step]; cbn [op_pats_ok] in Hop; try exact Hsame.
+  - (* OSetText *) destruct (sess_get sid (m_sessions m)); exact Hsame.
+  - (* OSetLanguage *) destruct (sess_get sid (m_sessions m)); exact Hsame.
+  - (* OExecSession *)
+    destruct (sess_get sid (m_sessions m)) as [se|]; [|exact Hsame].
+    destruct (execute_session LX ck (m_cfg m) se) as [[se' r]|site]; exact Hsame.
+  - (* OSetTz *) destruct (set_timezone (m_cfg m) v) as [[n o]|]; exact Hsame.
+  - (* OUpdateCurrency *) destruct (read_currency (m_cfg m) cur); exact Hsame.
+  - (* OAddRule *)
+    destruct (tokenise_patterns LX ck (m_cfg m) lang patterns) as [ps0|site] eqn:Et; [|exact Hsame].
+    destruct (assoc lang (cf_rules (m_cfg m))); [|exact Hsame].
+    cbn [fst with_cfg m_cfg]. split; [|exact Hu].
+    unfold cfg_rules_ok. cbn [set_rules cf_rules].
+    apply (assoc_update_Forall (fun rs => Forall rule_ok rs)); [|exact Hr].
+    intros rs Hrs. apply Forall_app. split; [exact Hrs|]. constructor; [|constructor].
+    unfold rule_ok. cbn [rule_patterns]. apply stored_pats_ok. exact (Hop ps0 eq_refl).
+  - (* ODeleteRule *)
+    destruct (assoc lang (cf_rules (m_cfg m))) as [rs0|]; [|exact Hsame].
+    destruct (find_index _ rs0) as [i|]; [|exact Hsame].
+    cbn [fst with_cfg m_cfg]. split; [|exact Hu].
+    unfold cfg_rules_ok. cbn [set_rules cf_rules].
+    apply (assoc_update_Forall (fun rs => Forall rule_ok rs)); [|exact Hr].
+    intros rs Hrs. apply remove_at_Forall. exact Hrs.
+  - (* OAddType *)
+    destruct (assoc name (cf_types (m_cfg m))); [exact Hsame|].
+    cbn [fst with_cfg m_cfg]. split; [exact Hr|].
+    apply cfg_units_ok_iff. cbn [set_types cf_types].
+    apply (assoc_insert_Forall (fun g => Forall (fun kd : N * dyntype float => unit_ok (snd kd)) g)); [constructor|].
+    apply cfg_units_ok_iff. exact Hu.
+  - (* OAddTypeItem *)
+    destruct (assoc name (cf_types (m_cfg m))) as [g|] eqn:Eg; [|exact Hsame].
+    destruct (nassoc index g); [exact Hsame|].
+    destruct (tokenise_patterns LX ck (m_cfg m) (s "en") parse) as [ps0|site] eqn:Et; [|exact Hsame].
+    cbn [fst with_cfg m_cfg]. split; [exact Hr|].
+    apply cfg_units_ok_iff. cbn [set_types cf_types].
+    pose proof (proj1 (cfg_units_ok_iff _) Hu) as Hty.
+    apply (assoc_insert_Forall (fun g => Forall (fun kd : N * dyntype float => unit_ok (snd kd)) g)); [|exact Hty].
+    apply (ninsert_Forall (fun d : dyntype float => unit_ok d)).
+    + unfold unit_ok. cbn [dt_parse]. apply stored_pats_ok. exact (Hop ps0 eq_refl).
+    + destruct (assoc_in _ _ _ Eg) as [k' Hin]. unfold types_ok in Hty. rewrite Forall_forall in Hty.
+      exact (Hty _ Hin).
+Qed.
+
+(* every configuration reached from the default one by a history that registers no one-token
+   pattern satisfies both side conditions *)
+Fixpoint history_ok (ck : clock) (m : mstate) (ops : list op) : Prop :=
+  match ops with
+  | [] => True
+  | o :: r => op_pats_ok ck m o /\ history_ok ck (fst (step ck m o)) r
+  end.
+
+Fixpoint final_state (ck : clock) (m : mstate) (ops : list op) : mstate :=
+  match ops with
+  | [] => m
+  | o :: r => final_state ck (fst (step ck m o)) r
+  end.
+
+Theorem reachable_cfg_ok ck : forall ops m,
+  cfg_rules_ok (m_cfg m) /\ cfg_units_ok (m_cfg m) -> history_ok ck m ops ->
+  cfg_rules_ok (m_cfg (final_state ck m ops)) /\ cfg_units_ok (m_cfg (final_state ck m ops)).
+Proof.
+  induction ops as [|o r IH]; intros m Hm Hh; cbn [final_state]; [exact Hm|].
+  destruct Hh as [Ho Hr]. apply IH; [|exact Hr]. apply step_preserves_ok; assumption.
+Qed.
+
+Corollary reachable_from_default_ok ck ops :
+  history_ok ck init_state ops ->
+  cfg_rules_ok (m_cfg (final_state ck init_state ops)) /\ cfg_units_ok (m_cfg (final_state ck init_state ops)).
+Proof. apply reachable_cfg_ok. split; [exact default_rules_ok|exact default_units_ok]. Qed.
+
+(* ---------- the one-token API rule: the model's prediction for the crate ---------- *)
+(* add_rule stores exactly the pattern of [c01_single_token_rule_loops] *)
+Lemma api_pattern_number_x :
+  tokenise_patterns LX CK0 default_config (s "en") [s "{NUMBER:x}"] = Ok [[pat_number_x]].
+Proof. vm_compute. reflexivity. Qed.
+
+(* the history [add_rule en ["{NUMBER:x}"] echo; exec "5"]: registration succeeds, the execution
+   exhausts the rule loop's fuel.  On the crate this history hangs (harness watchdog: {"hang":true});
+   Corr.obs_eqb accepts exactly this pair (MPanic SITE_OUT_OF_FUEL ~ IHang). *)
+Theorem c01_single_token_rule_hangs_model :
+  run CK0 init_state [OAddRule (s "en") [s "{NUMBER:x}"] (s "e1") REcho 0%float []; OExec (s "en") (s "5")]
+  = [MRet (Some true); MPanic SITE_OUT_OF_FUEL].
+Proof. vm_compute. reflexivity. Qed.
+
+(* same with a scaling rule, k = 1 *)
+Theorem c01_single_token_scale_hangs_model :
+  run CK0 init_state [OAddRule (s "en") [s "{NUMBER:x}"] (s "s1") RScale 1%float []; OExec (s "en") (s "5")]
+  = [MRet (Some true); MPanic SITE_OUT_OF_FUEL].
+Proof. vm_compute. reflexivity. Qed.
+
+(* ---------- non-vacuity: the loops do fire, and mu goes down while the list grows ---------- *)
+Definition infos_of (line : str) : list (token_info float) :=
+  match token_infos LX 0%Z default_config (s "en") line with Ok l => l | Panic _ => [] end.
+
+Example unit_loop_fires :
+  let st := {| ts_infos := infos_of (s "10 km"); ts_ui := [] |} in
+  (mu (ts_infos st), length (ts_infos st)) = (2, 2) /\
+  match dyn_loop (loop_fuel st) (s "10 km") default_config [] st with
+  | Ok (Some st') => (mu (ts_infos st'), length (ts_infos st')) = (1, 3)
+  | _ => False
+  end.
+Proof. vm_compute. split; reflexivity. Qed.
+
+Example rule_loop_fires :
+  let line := s "2 hours 30 minutes" in
+  let st := {| ts_infos := infos_of line; ts_ui := [] |} in
+  (mu (ts_infos st), length (ts_infos st)) = (4, 4) /\
+  match rule_tokinizer (basic_execute LX CK0) 1970 (loop_fuel st) line default_config (s "en") [] st with
+  | Ok (Some st') => (mu (ts_infos st'), length (ts_infos st')) = (1, 7)
+  | _ => False
+  end.
+Proof. vm_compute. split; reflexivity. Qed.
+
+(* ---------- summary ---------- *)
+(* For the regenerated default configuration and any session variables satisfying [vars_ok], none
+   of the three loop calls under [unfuel] in Api.tokinize returns the out-of-fuel outcome. *)
+Theorem tokinize_loops_terminate ck lang (vs : vars float) line :
+  vars_ok vs ->
+  (forall st3, update_token_variables line vs st3 <> Ok None) /\
+  (forall st4, dyn_loop (loop_fuel st4) line default_config vs st4 <> Ok None) /\
+  (forall st5, rule_tokinizer (basic_execute LX ck) (ck_year ck) (loop_fuel st5) line default_config lang vs st5 <> Ok None).
+Proof. apply tokinize_loops_terminate_cfg; [exact default_rules_ok|exact default_units_ok]. Qed.
+
+(* ... and for every configuration reachable from it through the public setters by a history that
+   registers no one-token pattern *)
+Theorem tokinize_loops_terminate_reachable ck ops lang (vs : vars float) line :
+  history_ok ck init_state ops -> vars_ok vs ->
+  let cfg := m_cfg (final_state ck init_state ops) in
+  (forall st3, update_token_variables line vs st3 <> Ok None) /\
+  (forall st4, dyn_loop (loop_fuel st4) line cfg vs st4 <> Ok None) /\
+  (forall st5, rule_tokinizer (basic_execute LX ck) (ck_year ck) (loop_fuel st5) line cfg lang vs st5 <> Ok None).
+Proof.
+  intros Hh Hv cfg. destruct (reachable_from_default_ok ck ops Hh) as [Hr Hu].
+  apply tokinize_loops_terminate_cfg; assumption.
+Qed.
+
+(* the empty session trivially satisfies the hypothesis *)
+Example vars_ok_empty : vars_ok (@nil (str * varinfo float)).
+Proof. constructor. Qed.
+
+Print Assumptions rule_loop_terminates.
+Print Assumptions rule_tokinizer_terminates.
+Print Assumptions dyn_loop_terminates.
+Print Assumptions subst_loop_terminates.
+Print Assumptions update_token_variables_terminates.
+Print Assumptions subst_loop_without_vars_ok_refuted.
+Print Assumptions fire_mu_exact.
+Print Assumptions c01_single_token_rule_loops.
+Print Assumptions c01_single_token_rule_hangs_model.
+Print Assumptions default_rules_ok.
+Print Assumptions default_units_ok.
+Print Assumptions step_preserves_ok.
+Print Assumptions tokinize_loops_terminate.
+Print Assumptions tokinize_loops_terminate_reachable.
